@@ -55,3 +55,17 @@ claim("C08", "proof",
       "Trusted: Coq kernel, opcode translator, extraction, driver, harness.  Oracle clauses are outside the codec model.",
       "Coq proof (reflexivity on the regenerated table; induction over strings / the walk) + byte-exact differential correspondence",
       "DESIGN.md section 6, C08")
+
+claim("C13", "proof",
+      "Coq theorems about a line-by-line model of the intrusive reference counting (allocation holding child handles, "
+      "handle copy, the work-list destructor): the count invariant holds in every state reachable by any operation "
+      "sequence, the instrumented destructor never touches a dead cell and frees each cell once, arguments are never "
+      "invalidated, alive <-> reachable (leak-free), the destructor loop is bounded by the edge count; tie: after every "
+      "call of generated C API / C++ sequences the refcount of each live handle's node and the live-node counter must equal "
+      "the specification computed by the extracted model; oracle: counter returns to baseline after all deletes, no "
+      "exceptions, 2*10^5..10^6-node chains / fans / remap chains destroyed on a 256 KB stack.",
+      "Trusted: Coq kernel, extraction, harness, the LIBFIVE_VERIF live-node counter; C++ lifetime rules map each Tree "
+      "member / temporary to one model step (assumed); stack and allocator behaviour observed, not modelled.",
+      "Coq proof (counting invariant over arbitrary operation lists, loop invariant of the destructor) + differential refcount correspondence",
+      "DESIGN.md section 6, C13")
+HOOK_COMMITS.append("a30cf9a")
